@@ -604,7 +604,7 @@ func (g *G) propName() (toks []Tok, str string, ident string) {
 		}
 		return cat(tk("["), e.Toks, tk("]")), "[" + s + "]", ""
 	}
-	n := g.pick("identkey", []string{"k", "m", "if", "get", "static", "async", "class", "x1"})
+	n := g.pick("identkey", []string{"k", "m", "if", "get", "set", "static", "async", "class", "x1"})
 	return tk(n), n, n
 }
 
@@ -1023,8 +1023,12 @@ func (g *G) class(expr bool) Out {
 				kt = tk(ks)
 			} else {
 				kt, ks, _ = g.propName()
-				if ks == "constructor" || ks == "prototype" || ks == "static" || ks == "get" || ks == "set" || ks == "async" {
+				if ks == "constructor" || ks == "prototype" {
 					ks, kt = "fld", tk("fld")
+				}
+				if ks == "static" || ks == "get" || ks == "set" || ks == "async" {
+					// a field named like a modifier: what follows is = or ; (the field's explicit terminator)
+					g.Kinds["field-named-like-modifier"]++
 				}
 			}
 			toks = append(toks, kt...)
